@@ -1,10 +1,11 @@
-import Driver.Common
-/-! Judge for C05: not built yet (stub so that the target exists). -/
+import Driver.MuxJudge
+/-! Judges for C05 (IP filter): `ipfilter` = the package-level decision (`New` / `Allow` against the
+model and `net.IPNet.Contains`), `C05` = the router with filters at the three levels. -/
 open Lean Driver
 
 namespace Driver.C05
 
-def judges : List (String × Judge) := []
+def judges : List (String × Judge) := [("C05", MuxJudge.judge true), ("ipfilter", MuxJudge.ipfJudge)]
 
 end Driver.C05
 
